@@ -271,18 +271,27 @@ def random_programs(rnd, n, valid_bias=0.8):
                     op = rnd.choice(["L1", "L2"])
                 elif ins.is_special:
                     op = rnd.choice(["A,B", "X,Y"]) if mn in ("TFR", "EXG") else rnd.choice(["A,B,X", "CC", "D,Y,PC"])
-                elif ins.mode.inh is not None:
-                    op = ""
                 elif mn == "FCC":
                     op = rnd.choice(["\"HI THERE\"", "'x'", "/A B/"])
                 elif mn in ("FCB", "FDB"):
-                    op = rnd.choice(["1", "1,2,3", "$FF", "C1", "$1234"])
+                    op = rnd.choice(["1", "1,2,3", "$FF", "C1", "$12" if mn == "FCB" else "$1234"])
                 elif mn == "RMB":
                     op = rnd.choice(["1", "4", "100"])
                 elif mn in ("EQU", "ORG", "INCLUDE", "END", "NAM", "SETDP"):
                     mn, op = "NOP", ""
-                elif ins.mode.imm is None and op.startswith("#"):
-                    op = op[1:]
+                else:
+                    cands = []
+                    m = ins.mode
+                    if m.inh is not None:
+                        cands += [""] * 3
+                    if m.imm is not None:
+                        cands += ["#$10", "#5", "#C2", "#%00001111"] + (["#$1234", "#L1", "#L2+1"] if ins.is_16_bit else [])
+                    if m.dir is not None or m.ext is not None:
+                        cands += ["$10", "$1234", "<$10", ">$1234", "L1", "L2", "C1", "L1+1", "L2-2", "4660"]
+                    if m.ind is not None:
+                        cands += [",X", ",Y+", ",--U", "[,S++]", "5,X", "-5,Y", "200,U", "$1234,S", "A,X", "[D,Y]", "[$1234]", "[L2]",
+                                  "L1,PCR", "[L2,PCR]", "L2+1,PCR", "[B,U]", ",S", "100,Y"]
+                    op = rnd.choice(cands) if cands else ""
             elif mn == "INCLUDE":
                 mn = "NOP"
             lines.append("%s %s %s" % (lab, mn, op) + (rnd.choice(["", " ; note", " text"]) if rnd.random() < 0.2 else ""))
